@@ -11,12 +11,13 @@ from concurrent.futures import ThreadPoolExecutor
 from vlib import common as C
 sys.path.insert(0, os.path.join(C.VERIF, "tools"))
 import C08_fstrace as FT
+import C09_tempnames as TN
 from props import C08 as P8
 
 PROP = "C09"
 FLAVOURS = ["asan", "plain"]
 CHECKER = "make -C /verif/coq -k C09/Properties_C09.vo gen/C09_traces.vo  (coqc 8.16.1, full .vo; gen/C09_traces.v regenerated from strace of this run)"
-TRUSTED = P8.TRUSTED + ["real concurrent runs sample schedules only; NFS rename semantics, dlopen of a file being replaced and compiler failures are outside the model"]
+TRUSTED = P8.TRUSTED + ["tools/C09_tempnames.py: syntactic check that hash_t::random draws a fresh std::random_device value per call (discharges fresh_temps up to 32-bit collisions)", "real concurrent runs sample schedules only; NFS rename semantics, dlopen of a file being replaced and compiler failures are outside the model"]
 META = dict(
     level="Coq theorems over the process-system model of the build protocol (any number of processes, every interleaving of their "
           "micro-steps, isFile tests separate from uses): no reader ever finds a partial file under a completion-tested name, a "
@@ -32,7 +33,7 @@ META = dict(
 EXPECT = P8.EXPECT[7]
 
 
-def concurrent_round(exe, base, idx, mode, how, nproc, rng, traced, simultaneous=False):
+def concurrent_round(exe, base, idx, mode, how, nproc, rng, traced, simultaneous=False, forked=False):
     cache = os.path.join(base, "cc-%d" % idx)
     os.makedirs(cache)
     kfile = os.path.join(base, "cc-%d.okl" % idx)
@@ -44,15 +45,21 @@ def concurrent_round(exe, base, idx, mode, how, nproc, rng, traced, simultaneous
     else:
         delays = [rng.choice([0, 0, rng.randint(0, 3000), rng.randint(0, 60000), rng.randint(0, 400000)]) for _ in range(nproc)]
     # every builder spins until this instant before it touches the (cold) cache
-    env["C08_START_AT"] = "%.3f" % (time.time() + (2.5 if traced else 0.8))
-    script = " ".join("%s %s %s 7 %d &" % (exe, mode, how, d) for d in delays) + " wait"
+    if not forked:
+        env["C08_START_AT"] = "%.3f" % (time.time() + (2.5 if traced else 0.8))
+    if forked:
+        # the builders are fork()ed children of one process that has already staged files of another kernel
+        script = "%s %s fork 7 %d" % (exe, mode, nproc)
+        how = "string"
+    else:
+        script = " ".join("%s %s %s 7 %d &" % (exe, mode, how, d) for d in delays) + " wait"
     cmd = ["sh", "-c", script]
     st = os.path.join(base, "cc-%d.strace" % idx)
     if traced:
         cmd = ["strace", "-f", "-y", "-o", st, "-e", "trace=file,desc,process", "-e", "signal=none"] + cmd
     rc, out, err = C.sh(cmd, env=env, timeout=600)
     lines = [l for l in out.splitlines() if l.startswith("R ")]
-    res = dict(idx=idx, mode=mode, how=how, nproc=nproc, delays=delays, lines=lines, traced=traced,
+    res = dict(idx=idx, mode=mode, how=how, nproc=nproc, delays=delays, lines=lines, traced=traced, forked=forked,
                ok=(len(lines) == nproc and all(l == EXPECT for l in lines)), err=err[-300:])
     if traced:
         tr = FT.translate(st, cache)
@@ -74,7 +81,7 @@ def concurrent_round(exe, base, idx, mode, how, nproc, rng, traced, simultaneous
     return res
 
 
-def write_gen(rounds):
+def write_gen(rounds, temp_ok=(True, "")):
     os.makedirs(os.path.join(C.COQ, "gen"), exist_ok=True)
     L = ["(* GENERATED by props/C09.py from strace of real concurrent builds of this run; do not edit. *)",
          "From Coq Require Import List NArith Bool.", "From OV.C08 Require Import Model.", "Import ListNotations.",
@@ -90,6 +97,10 @@ def write_gen(rounds):
     L.append("Definition concurrent_traces : list (list op) := [%s]." % "; ".join(tn))
     L.append("Definition follow_traces : list (list op) := [%s]." % "; ".join(fn))
     L += ["",
+          "(* hypothesis fresh_temps, tied to the source by tools/C09_tempnames.py: %s *)" % temp_ok[1].replace("*)", "* )"),
+          "Definition temp_names_drawn_fresh_per_call : bool := %s." % ("true" if temp_ok[0] else "false"),
+          "Example fresh_temps_source_ok : temp_names_drawn_fresh_per_call = true.",
+          "Proof. reflexivity. Qed.",
           "(* the merged real trace of the concurrent builders satisfies the hypothesis of crash_safe *)",
           "Example concurrent_traces_conform : forallb protocol_ok concurrent_traces = true.",
           "Proof. vm_compute. reflexivity. Qed.",
@@ -124,25 +135,38 @@ def run(run, tier, seed, replay_case=None):
                 ("Serial", "file", 2, False), ("OpenMP", "string", 8, False), ("Serial", "string", 16, False),
                 # cold cache, all builders released at the same instant (directory-creation and first-publish races)
                 ("Serial", "file", 16, "sim"), ("OpenMP", "string", 16, "sim"), ("Serial", "string", 16, "sim"),
-                ("OpenMP", "file", 12, "sim")]
+                ("OpenMP", "file", 12, "sim"),
+                # fork()ed builders inheriting the state of a parent that already used the cache (one traced)
+                ("Serial", "string", 8, "forkT"), ("OpenMP", "string", 12, "fork"), ("Serial", "string", 16, "fork")]
         if tier == "thorough":
             for i in range(60):
                 plan.append((rng.choice(["Serial", "OpenMP"]), rng.choice(["string", "file"]), rng.randint(2, 16),
                              True if i % 6 == 0 else ("sim" if i % 2 else False)))
         if replay_case:
             m = re.match(r"round (\w+) (\w+) (\d+)", replay_case)
+            if m and replay_case.rstrip().endswith("forked"):
+                plan = [(m.group(1), "string", int(m.group(3)), "fork")] * 6
+                m = None
             if m:
-                plan = [(m.group(1), m.group(2), int(m.group(3)), "sim")] * 4 + [(m.group(1), m.group(2), int(m.group(3)), True)]
+                plan = [(m.group(1), m.group(2), int(m.group(3)), "sim")] * 4 + [(m.group(1), m.group(2), int(m.group(3)), True)] + \
+                       [(m.group(1), "string", int(m.group(3)), "fork")] * 4
         rounds = []
         for i, (mode, how, n, traced) in enumerate(plan):     # rounds run one after another: each is itself parallel
-            rounds.append(concurrent_round(exe, base, i, mode, how, n, rng, traced is True, simultaneous=(traced == "sim")))
-        write_gen(rounds)
+            rounds.append(concurrent_round(exe, base, i, mode, how, n, rng, traced in (True, "forkT"), simultaneous=(traced == "sim"),
+                                           forked=(traced in ("fork", "forkT"))))
+        temp_ok = TN.analyse(C.REPO)
+        if not temp_ok[0] and tier == "quick" and not replay_case:
+            # the hypothesis is no longer discharged from the source: look harder for a real failure
+            for j in range(6):
+                rounds.append(concurrent_round(exe, base, len(plan) + j, rng.choice(["Serial", "OpenMP"]), "string", 16, rng,
+                                               False, forked=True))
+        write_gen(rounds, temp_ok)
         pr = C.coq_properties(PROP, dirs=["C09", "C08", "lib"], gen_targets=["gen/C09_traces.vo"])
         run.add_proof(pr, CHECKER)
         run.coverage["trusted_base"] = TRUSTED
         for r in rounds:
             if not r["ok"]:
-                case = "round %s %s %d" % (r["mode"], r["how"], r["nproc"])
+                case = "round %s %s %d%s" % (r["mode"], r["how"], r["nproc"], " forked" if r.get("forked") else "")
                 run.violation("concurrent builds failed or the cache was not reused: " + case,
                               "property C09 fails on the implementation built from /repo\ncase: %s\nstart delays (us): %s\n"
                               "outputs of the %d processes: %s\nrequired: %d x %s\nfollow-up build: %s, file-creating operations: %d, "
